@@ -848,7 +848,8 @@ def judge_case(prop, kind, lines):
             # an operation during which an injected user panic (Ord::cmp / callback) may have fired
             if ln.fault:
                 survivable = ln.op.startswith("!cmp") or (ln.op.startswith("!cb") and ln.args and ln.args[0] in (
-                    "change_priority_by", "pop_if", "pop_min_if", "pop_max_if", "extend", "from_iter"))
+                    "change_priority_by", "pop_if", "pop_min_if", "pop_max_if", "extend", "from_iter")) or (
+                    ln.op.startswith("!cl") and ln.args and ln.args[0] in ("clone_swap", "clone_from"))
                 if ln.res != "fault user" or not survivable:
                     return None            # other fault kinds are judged by the C10 crash stream, not here
                 # the panic was caught and the queue survives (C10): the case goes on from the post-unwinding state read
